@@ -517,7 +517,10 @@ impl Ctx {
         let viols = self.viols.lock().unwrap();
         let mut machinery = self.machinery.lock().unwrap().clone();
         let thresholds = self.thresholds.lock().unwrap();
-        if RAT_OVERFLOWS.load(Ordering::Relaxed) > 0 {
+        let total_viol_pre: u64 = spaces.iter().map(|s| s.viol_total).sum();
+        if RAT_OVERFLOWS.load(Ordering::Relaxed) > 0 && total_viol_pre == 0 {
+            // with genuine violations on record an overflow is a symptom of the broken code (garbage growth), not a reason
+            // to withhold the verdict; without any it means the alphabet is too large for i128
             machinery.push(format!("{} exact-rational overflow(s): alphabet too large for i128", RAT_OVERFLOWS.load(Ordering::Relaxed)));
         }
         let mut evals = 0u64;
@@ -560,7 +563,8 @@ impl Ctx {
                 "classes": s.hits, "notes": s.notes,
             }));
         }
-        if self.replay.is_none() && !aborted {
+        // vacuity is judged on clean runs only: violations cut explorations short (violating states are not expanded)
+        if self.replay.is_none() && !aborted && total_viol_pre == 0 {
             for req in self.required_hits.lock().unwrap().iter() {
                 if hits.get(req).copied().unwrap_or(0) == 0 {
                     machinery.push(format!("vacuity: required class '{}' was never exercised", req));
